@@ -250,6 +250,7 @@ struct harris_michael_list_based_set<Key, Policies...>::node : reclaimer::templa
 template <class Key, class... Policies>
 auto harris_michael_list_based_set<Key, Policies...>::iterator::operator++() -> iterator& {
   assert(info.cur.get() != nullptr);
+retry:
   auto next = info.cur->next.load(std::memory_order_relaxed);
   guard_ptr tmp_guard;
   // (1) - this acquire-load synchronizes-with the release-CAS (7, 8, 10, 13)
@@ -257,6 +258,10 @@ auto harris_michael_list_based_set<Key, Policies...>::iterator::operator++() -> 
     info.prev = &info.cur->next;
     info.save = std::move(info.cur);
     info.cur = std::move(tmp_guard);
+  } else if (next.mark() == 0) {
+    // cur->next has changed, but cur itself is not marked (e.g. a node has been inserted after cur)
+    // -> retry; find would stop at cur again and the same element would be yielded twice
+    goto retry;
   } else {
     // cur is marked for removal
     // -> use find to remove it and get to the next node with a compare(key, cur->key) == false
